@@ -15,6 +15,8 @@ use crate::rng::Rng;
 enum Op {
     AddProg(usize, String, String),
     Bind(usize, String, CelValue),
+    /// bind_params_from_json_obj: several names at once, given as JSON text
+    BindJson(usize, String),
     CloneCtx(usize, usize),
     CloneBind(usize, usize),
     Exec(usize, usize, String),
@@ -25,6 +27,7 @@ fn show_op(o: &Op) -> String {
     match o {
         Op::AddProg(c, n, s) => format!("ctx{}.add_program({}, `{}`)", c, n, mon::clip(s, 80)),
         Op::Bind(b, v, val) => format!("bind{}.bind_param({}, {})", b, v, mon::clip(&canon(val), 60)),
+        Op::BindJson(b, j) => format!("bind{}.bind_params_from_json_obj({})", b, mon::clip(j, 80)),
         Op::CloneCtx(a, b) => format!("ctx{} = ctx{}.clone()", b, a),
         Op::CloneBind(a, b) => format!("bind{} = bind{}.clone()", b, a),
         Op::Exec(c, b, n) => format!("ctx{}.exec({}, bind{})", c, n, b),
@@ -95,6 +98,26 @@ fn run_history(rep: &mut Rep, ops: &[Op], nslots: usize, kind: &str) {
             Op::Bind(b, v, val) => {
                 w.binds[*b].bind_param(v, val.clone());
                 w.mbind[*b].insert(v.clone(), val.clone());
+                state_changes += 1;
+            }
+            Op::BindJson(b, j) => {
+                // model: every key now holds what the same JSON gives in bindings that never held anything
+                let val: serde_json::Value = serde_json::from_str(j).expect("harness writes valid JSON");
+                let mut fresh = BindContext::new();
+                let r1 = fresh.bind_params_from_json_obj(val.clone());
+                let r2 = w.binds[*b].bind_params_from_json_obj(val.clone());
+                if r1.is_ok() != r2.is_ok() {
+                    rep.viol(&format!("history|bind-json|{}", kind), &format!("step {}: {} accepted by fresh bindings: {}, by these: {}", step, show_op(op), r1.is_ok(), r2.is_ok()),
+                             json!({"history": ops.iter().map(show_op).collect::<Vec<_>>()}));
+                    return;
+                }
+                if let serde_json::Value::Object(o) = &val {
+                    for k in o.keys() {
+                        if let Some(v) = fresh.get_param(k) {
+                            w.mbind[*b].insert(k.clone(), v.clone());
+                        }
+                    }
+                }
                 state_changes += 1;
             }
             Op::CloneCtx(a, b) => {
@@ -176,6 +199,10 @@ fn small_ops() -> Vec<Op> {
                 v.push(Op::Bind(b, var.to_string(), val));
             }
         }
+    }
+    for b in 0..2 {
+        v.push(Op::BindJson(b, "{\"x\": 7}".to_string()));
+        v.push(Op::BindJson(b, "{\"x\": 2, \"q\": 3}".to_string()));
     }
     v.push(Op::CloneCtx(0, 1));
     v.push(Op::CloneCtx(1, 0));
@@ -263,6 +290,24 @@ pub fn run(ctx: &mut Ctx) {
                 4 | 5 => {
                     let v = rng.pick(&vars).clone();
                     Op::Bind(rng.below(3), v.name.clone(), gen::value_of(rng, &v.ty, true))
+                }
+                6 if rng.chance(1, 2) => {
+                    // one to three names at once through the JSON overload (ints, strings, bools, lists, maps)
+                    let n = 1 + rng.below(3);
+                    let mut parts = Vec::new();
+                    for _ in 0..n {
+                        let v = rng.pick(&vars).clone();
+                        let j = match rng.below(6) {
+                            0 => format!("{}", rng.range(-9, 9)),
+                            1 => format!("\"s{}\"", rng.below(5)),
+                            2 => format!("{}", rng.chance(1, 2)),
+                            3 => format!("[{}, {}]", rng.below(5), rng.below(5)),
+                            4 => format!("{{\"a\": {}}}", rng.below(5)),
+                            _ => format!("{}.5", rng.below(9)),
+                        };
+                        parts.push(format!("\"{}\": {}", v.name, j));
+                    }
+                    Op::BindJson(rng.below(3), format!("{{{}}}", parts.join(", ")))
                 }
                 6 => Op::CloneCtx(rng.below(3), rng.below(3)),
                 7 => Op::CloneBind(rng.below(3), rng.below(3)),
